@@ -374,6 +374,38 @@ func genRobust() {
 		}
 		l.defStrList(c[3], calls)
 	}
+	// parseIncluding: the statements of the `if ic.Include != "" { … }` block (what guards the recursion)
+	{
+		f := load("pkg/build/types/image_configuration.go")
+		fd := f.fn("ImageConfiguration.parseIncluding")
+		var stmts []string
+		if fd != nil {
+			for _, st := range fd.Body.List {
+				is, ok := st.(*ast.IfStmt)
+				if !ok || f.src(is.Cond) != `ic.Include != ""` {
+					continue
+				}
+				for _, b := range is.Body.List {
+					if es, ok := b.(*ast.ExprStmt); ok && strings.HasPrefix(f.src(es), "log.") {
+						continue
+					}
+					if bi, ok := b.(*ast.IfStmt); ok && branchHow(bi.Body) == "return" {
+						init := ""
+						if bi.Init != nil {
+							init = f.src(bi.Init) + "; "
+						}
+						stmts = append(stmts, "if "+init+f.src(bi.Cond)+" { return }")
+						continue
+					}
+					stmts = append(stmts, f.src(b))
+				}
+			}
+		}
+		if len(stmts) == 0 {
+			problem("image_configuration.go: robust: include block of parseIncluding not found")
+		}
+		l.defStrList("includeBlock", stmts)
+	}
 	// expandApkWriter: the stream limits
 	{
 		f := load("pkg/apk/expandapk/expandapk.go")
